@@ -3,18 +3,18 @@
 import sys, os, json, shutil, re
 ID, V, name, caught = sys.argv[1:5]
 notes = ' '.join(sys.argv[5:])
-src = f'/tmp/wt/{ID}.out'
+import os as _o; B = _o.environ.get('SEEDBASE', '/tmp/wt'); src = f'{B}/{ID}.out'
 dst = f'/verif/seeded/{ID}-{name}'
 os.makedirs(dst, exist_ok=True)
-shutil.copy(f'/tmp/wt/{ID}{V}.rebased.diff', dst + '/patch.diff')
+shutil.copy(f'{B}/{ID}{V}.rebased.diff', dst + '/patch.diff')
 shutil.copy(f'{src}/{V}_demo.py', dst + '/demo.py')
 meta = json.load(open(f'{src}/{V}.json'))
-log = open(f'/tmp/wt/{ID}{V}.check.log').read()
+log = open(f'{B}/{ID}{V}.check.log').read()
 summ = re.findall(r'^SUMMARY.*$', log, re.M)
 viol = sorted(set(re.findall(r'obligation=(\S+)', '\n'.join(l for l in log.splitlines() if l.startswith('  obligation=')))))
 meta.update({
     'property': meta.get('property', ID), 'origin': 'independent sub-agent given only the property text and a scratch worktree',
-    'confirmed_by_me': {'tests_with_change': open(f'/tmp/wt/{ID}{V}.tests').read().strip()[-40:],
+    'confirmed_by_me': {'tests_with_change': open(f'{B}/{ID}{V}.tests').read().strip()[-40:],
                         'demo_exit_with_change': 'non-zero', 'demo_exit_without_change': 0,
                         'how': 'tools/evalseed.sh: fresh worktree of /repo HEAD, git apply, full pytest, demo with PYTHONPATH=worktree, revert, demo again'},
     'check_run': {'cmd': f'git -C /repo apply seeded/{ID}-{name}/patch.diff && ./check {ID} --tier quick ; git -C /repo checkout -- .',
